@@ -12,5 +12,5 @@ for id in "$@"; do
   d=/verif/seeded/$id
   prop=$(/venv/bin/python -c "import json,sys; print(json.load(open('$d/meta.json'))['property'])")
   echo "##### seed $id (property $prop)" >> $out
-  SEED_TIMEOUT=1500 /verif/tools/try_seed.sh $d $prop 2>&1 | grep -v "^  obligation" | tail -5 | cut -c1-400 >> $out
+  SEED_TIMEOUT=1500 /verif/tools/try_seed.sh $d $prop 2>&1 | grep -v "^  obligation" | tail -9 | cut -c1-400 >> $out
 done
